@@ -873,7 +873,10 @@ def iSaveResult : Instr := ⟨"_saveResult", 0, 1, 1, 0, false⟩
 def iClearResult : Instr := op00 "_clearResult"
 def iInitStackP : Instr := ⟨"initStackP", 0, 1, 1, 0, false⟩
 def iInitValueP : Instr := ⟨"_initValueP", 0, 1, 1, 0, false⟩
-def iRet : Instr := ⟨"_ret", 0, 1, 1, 0, true⟩
+/-- `ret` is terminal for the unit; `pushes = 1` records that, unlike a throw, it leaves its operand as the value for
+the caller (no successor inside the unit reads it: `Instr.node` and `Code.height` ignore `pushes` of terminal
+instructions) — `Instr.isRet` (RetExact.lean) tells `ret` from the throwing terminals by it. -/
+def iRet : Instr := ⟨"_ret", 0, 1, 1, 1, true⟩
 
 mutual
 inductive Stmt
